@@ -333,9 +333,10 @@ func classifyApproval(sent []fakechain.Sent, nr *payload.P2PNotaryRequest, me *k
 }
 
 type tickStep struct {
-	Ev string `json:"ev"`
-	E  uint64 `json:"e,omitempty"`
-	A  string `json:"a,omitempty"`
+	Ev   string `json:"ev"`
+	E    uint64 `json:"e,omitempty"`
+	A    string `json:"a,omitempty"`
+	Fail string `json:"fail,omitempty"` // NewEpoch: which chain read of processNewEpoch fails: none | netmap | height | duration
 }
 type tickScript struct {
 	Steps []tickStep `json:"steps"`
@@ -352,7 +353,7 @@ func c38gen(nScripts, ln int, out string) {
 			case x < 4:
 				s.Steps = append(s.Steps, tickStep{Ev: "Tick"})
 			case x < 8:
-				s.Steps = append(s.Steps, tickStep{Ev: "NewEpoch", E: uint64(r.Intn(1000))})
+				s.Steps = append(s.Steps, tickStep{Ev: "NewEpoch", E: uint64(r.Intn(1000)), Fail: []string{"none", "none", "netmap", "height", "duration"}[r.Intn(5)]})
 			default:
 				s.Steps = append(s.Steps, tickStep{Ev: "SetAlpha", A: alphas[r.Intn(len(alphas))]})
 			}
@@ -386,10 +387,21 @@ func c38tick(in, out string) {
 				seq++
 				var h util.Uint256
 				h[0], h[1], h[2], h[3] = byte(seq), byte(seq>>8), byte(seq>>16), 0x38
-				n.Chain.Lock()
-				n.Chain.TxHeights[h] = 60
-				n.Chain.Unlock()
+				if st.Fail == "" {
+					st.Fail = "none"
+				}
+				if st.Fail != "height" {
+					n.Chain.Lock()
+					n.Chain.TxHeights[h] = 60
+					n.Chain.Unlock()
+				}
+				n.Mu.Lock()
+				n.FailRead["listNodes"], n.FailRead["config"] = st.Fail == "netmap", st.Fail == "duration"
+				n.Mu.Unlock()
 				n.FeedNotification(n.C.Netmap, "NewEpoch", h, stackitem.Make(st.E))
+				n.Mu.Lock()
+				n.FailRead["listNodes"], n.FailRead["config"] = false, false
+				n.Mu.Unlock()
 			case "Tick":
 				n.NetmapProc.HandleNewEpochTick()
 				n.Drain()
@@ -412,6 +424,7 @@ func c38tick(in, out string) {
 			ev := kit.M{"ev": st.Ev, "calls": calls, "others": others, "counter": n.Srv.EpochCounter()}
 			if st.Ev == "NewEpoch" {
 				ev["e"] = st.E
+				ev["fail"] = st.Fail
 			}
 			if st.Ev == "SetAlpha" {
 				ev["a"] = st.A
